@@ -29,7 +29,8 @@ AFTER_OP = {'PLUS', 'TIMES', 'DIVIDE', 'POWER', 'EQ', 'LT', 'AND', 'OR', 'LPAREN
 BINONLY = ['*', '/', '**', '==', 'and', 'or', 'in', '.', '|', '=>', '<=', '!=']
 MULTI = ['s = "a\\nb\\nc"', 'w = ["l1\\nl2", \'q\\n\']', 't = "x\\ty\\n" + r"raw\\n"', 'x = [\n1,\n2\n]', 'd = {\n"a": 1,\n"b": [2,\n3]\n}', 'f(\na,\nb\n)', 'y = (1 +\n 2)', 'z = [\r\n 1,\r\n 2\r\n]',
          'g(a, # c\n b)', 'm = {"k": (1,\n\n 2) | f}']
-EOF_RE = re.compile(r'(?i)\bend of (input|file|text)\b|\bEOF\b|unexpected end')
+EOF_RE = re.compile(r'(?i)\bend[- ]of[- ](input|file|text|expression|program|source|code|script|statement)\b|\bEOF\b|unexpected end|premature end|'
+                    r'incomplete (input|expression|program|statement)|ended unexpectedly')
 _parser = None
 _cached_parser = None
 
@@ -64,9 +65,13 @@ def judge(text, exp_text, exp_line, case, p=None):
         return []
     if exp_text not in msg:
         return [Failure('token-not-named', f'{text!r}: message {msg!r} does not name the offending token {exp_text!r}', case)]
-    m = re.search(r'line (\d+)', msg)
+    m = re.search(r'(?i)\bline\W{0,3}(\d+)', msg)
     if not m:
-        return [Failure('no-line-number', f'{text!r}: message {msg!r} carries no line number', case)]
+        # no "line N" wording: accept the line number as any integer of the message that is not part of the token's text
+        nums = [int(x) for x in re.findall(r'\d+', msg.replace(exp_text, ' '))]
+        if exp_line in nums:
+            return []
+        return [Failure('no-line-number', f'{text!r}: message {msg!r} carries no line number (expected {exp_line})', case)]
     if int(m.group(1)) != exp_line:
         return [Failure('wrong-line', f'{text!r}: message {msg!r}, the offending token {exp_text!r} stands on physical line {exp_line}', case)]
     return []
